@@ -353,8 +353,14 @@ func runC18(s *Sim) {
 						s.mu.Unlock()
 					}
 					if strings.Contains(kind, "handshake-fail") {
+						hs := Pick(t, "hs-n", 1, 2)
+						if exhaust {
+							// from now on every redial connects and then dies before its first frame: such
+							// attempts use up the budget like refused dials do
+							hs = 1 << 20
+						}
 						s.mu.Lock()
-						d.noHandshake += Pick(t, "hs-n", 1, 2)
+						d.noHandshake += hs
 						s.mu.Unlock()
 					}
 					if strings.Contains(kind, "write-error") || kind == "both" {
